@@ -98,6 +98,11 @@ func SelfTestMain(args []string) int {
 		if debugStats && o.Stats != nil {
 			fmt.Printf("probes=%v fired=%v checks=%v calls=%d nops=%d evals=%d cfg=%v\n", o.Stats.Probes, o.Stats.Fired, o.Stats.Checks, o.Stats.StoreCalls, o.NOps, o.Evals, o.RF.Cfg)
 		}
+		if os.Getenv("VERIF_DEBUG_VIOL") != "" && o.V != nil {
+			fmt.Println(o.V.String())
+			o.RF.Violation = o.V
+			o.RF.Save(os.Getenv("VERIF_DEBUG_VIOL"))
+		}
 		fmt.Printf("HASH %016x engine=%s rule=%s\n", outcomeHash(o), eng, rule)
 		return 0
 	case "determinism":
